@@ -551,6 +551,17 @@ def remap_by_types(
 
                 scan_for_metadata(r.query_ast, add_md)
                 call_node = fixup_ast_from_modifications(r.query_ast, call_node)
+
+                # The lambda itself may have been rebuilt while it was followed (e.g. a
+                # callback replaced the call that is its body): the call site has to use it.
+                new_args = getattr(r.query_ast, "args", [])
+                if (
+                    len(new_args) == 2
+                    and isinstance(new_args[1], ast.Lambda)
+                    and new_args[1] is not call_node.args[0]
+                ):
+                    call_node = copy.copy(call_node)
+                    call_node.args = [new_args[1]]
                 return call_node, Iterable[r.item_type]  # type: ignore
 
             return call_node, r
